@@ -812,6 +812,19 @@ def _run_subsetforms(case, ck):
                     "values are not the values at their locations" %
                     (name, k, len(bad)))
             seen |= set(locs)
+            if name == "subset of a subset":
+                # the image axes remembered by the first subset are still
+                # the ones remembered by a subset of it
+                s2 = make_subset_data(first, pixels=k, seed=seed)
+                od1 = first.attrs.get("original_dims") or {}
+                od2 = s2.attrs.get("original_dims") or {}
+                ck.true("subset-original-dims", set(od2) == set(od1) and
+                        "x" in od2 and all(np.array_equal(
+                            np.asarray(od1[d]), np.asarray(od2[d]))
+                            for d in od1),
+                        "a subset of a subset remembers the axes %r, the "
+                        "first subset remembered %r" %
+                        (sorted(od2), sorted(od1)))
         ck.true("subset-covers", len(seen) == n, "%s: subsets (one of them "
                 "of all %d locations) only ever reached %d of them" %
                 (name, n, len(seen)))
